@@ -9,7 +9,7 @@ from hypothesis import strategies as st
 from .. import gens, refs
 from ..runner import Sub
 from . import probes
-from .common import L, Checker, arr
+from .common import L, Checker, arr, fresh_str
 
 PROPERTY_ID = "C05"
 RULE = ("rotations generated from angle triples (full range, exact singular values pitch=+-pi/2 / Euler theta in {0,+-pi} / "
@@ -17,7 +17,7 @@ RULE = ("rotations generated from angle triples (full range, exact singular valu
         "SO(3) and SE(3) inputs, base functions and SO3/SE3/UnitQuaternion methods, planar x-y-theta. Oracle: constructor = "
         "documented product of reference axis rotations (1e-9); rebuild(extract(R)) = R (1e-6); angle ranges; deg = rad*180/pi. "
         "Non-trivial: within 1e-3 of a singular configuration, or non-default order / flip / deg.")
-RULE = RULE + probes.RULE_TEXT + (probes.AUG_TEXT if PROPERTY_ID in probes.AUG_PROPS else "") + probes.VARIANT_TEXT
+RULE = RULE + probes.RULE_TEXT + (probes.AUG_TEXT if PROPERTY_ID in probes.AUG_PROPS else "") + probes.VARIANT_TEXT + probes.OWN_TEXT
 ASSUMPTIONS = ["extraction need not return the generating angles (many pre-images): only the rebuilt matrix and ranges are judged",
                "reference rotations from pbt/refs.py; deg inputs are a*180/pi so that the library's conversion reproduces a to 1 ulp"]
 
@@ -57,7 +57,9 @@ def s_angvec():
 
 def s_xyt():
     return st.fixed_dictionaries({"kind": st.just("xyt"), "x": gens.signed_logmag(-6, 6), "y": st.one_of(gens.signed_logmag(-6, 6), st.just(0.0)),
-                                  "theta": st.one_of(gens.angle2(), any_angle()), "unit": st.sampled_from(["rad", "deg"])})
+                                  "theta": st.one_of(gens.angle2(), any_angle()), "unit": st.sampled_from(["rad", "deg"]),
+                                  # components that are exactly zero (a given value, not a missing argument)
+                                  "zeros": st.sampled_from([None, None, None, "y", "theta", "y,theta", "x", "x,y"])})
 
 
 def rpy_ref(r, p, y, order):
@@ -70,7 +72,7 @@ def rpy_ref(r, p, y, order):
 
 
 def check_case(case):
-    if case.get("kind") in ("hist", "aug", "variant"):
+    if case.get("kind") in ("hist", "aug", "variant", "own"):
         return probes.run(case, PROPERTY_ID)
     return {"rpy": _rpy, "eul": _eul, "angvec": _angvec, "xyt": _xyt}[case["kind"]](case)
 
@@ -92,7 +94,7 @@ def _angles_ok(c, site, a, n, unit):
 
 def _rpy(case):
     b = L.base
-    r, p, y, order, unit = case["r"], case["p"], case["y"], case["order"], case["unit"]
+    r, p, y, order, unit = case["r"], case["p"], case["y"], fresh_str(case["order"]), fresh_str(case["unit"])
     k = D if unit == "deg" else 1.0
     R = rpy_ref(r, p, y, order)
     sing = abs(abs(math.remainder(p, PI)) - PI / 2)
@@ -125,7 +127,7 @@ def _rpy(case):
             if ok2:
                 c.eq("rpy2r(tr2rpy)/rebuild", Rl, Rin, 1e-6)
     ok1, a_rad = c.lib("tr2rpy/rad", b.tr2rpy, M, order=order)
-    ok2, a_deg = c.lib("tr2rpy/deg", b.tr2rpy, M, "deg", order)       # options in their documented positional order
+    ok2, a_deg = c.lib("tr2rpy/deg", b.tr2rpy, M, fresh_str("deg"), order)       # options in their documented positional order
     if ok1 and ok2:
         c.eq("tr2rpy/deg=rad*180/pi", a_deg, np.asarray(a_rad, dtype=float) * D, 1e-9, 180.0)
     # class accessors
@@ -146,7 +148,7 @@ def _rpy(case):
 
 def _eul(case):
     b = L.base
-    phi, th, psi, unit, flip = case["phi"], case["theta"], case["psi"], case["unit"], case["flip"]
+    phi, th, psi, unit, flip = case["phi"], case["theta"], case["psi"], fresh_str(case["unit"]), case["flip"]
     k = D if unit == "deg" else 1.0
     R = refs.rotz(phi) @ refs.roty(th) @ refs.rotz(psi)
     sing = abs(math.sin(th))
@@ -182,7 +184,7 @@ def _eul(case):
             if ok2:
                 c.eq("eul2r(tr2eul)/rebuild", Rl, Rin, 1e-6)
     ok1, a_rad = c.lib("tr2eul/rad", b.tr2eul, M, flip=flip)
-    ok2, a_deg = c.lib("tr2eul/deg", b.tr2eul, M, "deg", flip)          # options in their documented positional order
+    ok2, a_deg = c.lib("tr2eul/deg", b.tr2eul, M, fresh_str("deg"), flip)          # options in their documented positional order
     if ok1 and ok2:
         c.eq("tr2eul/deg=rad*180/pi", a_deg, np.asarray(a_rad, dtype=float) * D, 1e-9, 180.0)
     cname = "SE3" if case["se"] else "SO3"
@@ -205,7 +207,7 @@ def _eul(case):
 
 def _angvec(case):
     b = L.base
-    axis, th, unit = arr(case["axis"]), case["theta"], case["unit"]
+    axis, th, unit = arr(case["axis"]), case["theta"], fresh_str(case["unit"])
     k = D if unit == "deg" else 1.0
     c = Checker("angvec", unit=unit, theta=th, pi_minus_theta=PI - th, alen=float(np.linalg.norm(axis)))
     # constructor: rotation by any angle about the normalised axis
@@ -289,7 +291,9 @@ def _angvec(case):
 
 def _xyt(case):
     b = L.base
-    x, y, th, unit = case["x"], case["y"], case["theta"], case["unit"]
+    x, y, th, unit = case["x"], case["y"], case["theta"], fresh_str(case["unit"])
+    z = (case.get("zeros") or "").split(",")
+    x, y, th = (0.0 if "x" in z else x), (0.0 if "y" in z else y), (0.0 if "theta" in z else th)
     k = D if unit == "deg" else 1.0
     sc = max(1.0, abs(x), abs(y))
     T = refs.rt(refs.rot2(th), np.array([x, y]))
@@ -310,7 +314,7 @@ def _xyt(case):
             c.true("tr2xyt/range", abs(a[2]) <= PI * k * (1 + 1e-15), "theta %.17g out of range" % a[2])
             c.eq("tr2xyt/rebuild", refs.rt(refs.rot2(a[2] / k), a[:2]), T, 1e-6, sc)
     ok1, a_rad = c.lib("tr2xyt/rad", b.tr2xyt, T.copy())
-    ok2, a_deg = c.lib("tr2xyt/deg", b.tr2xyt, T.copy(), "deg")
+    ok2, a_deg = c.lib("tr2xyt/deg", b.tr2xyt, T.copy(), fresh_str("deg"))
     if ok1 and ok2:
         c.eq("tr2xyt/deg=rad*180/pi", np.asarray(a_deg, dtype=float)[2], np.asarray(a_rad, dtype=float)[2] * D, 1e-9, 180.0)
     X = L.SE2(T.copy(), check=False)
@@ -321,7 +325,7 @@ def _xyt(case):
             c.eq("SE2.xyt/rebuild", refs.rt(refs.rot2(a[2]), a[:2]), T, 1e-6, sc)
     for cname, obj in (("SE2", X), ("SO2", L.SO2(refs.rot2(th), check=False))):
         ok1, t_rad = c.lib(cname + ".theta", obj.theta)
-        ok2, t_deg = c.lib(cname + ".theta/deg", obj.theta, "deg")
+        ok2, t_deg = c.lib(cname + ".theta/deg", obj.theta, fresh_str("deg"))
         if ok1:
             c.true(cname + ".theta/range", abs(t_rad) <= PI * (1 + 1e-15), "theta %.17g" % t_rad)
             c.eq(cname + ".theta/rebuild", refs.rot2(float(t_rad)), refs.rot2(th), 1e-6)
@@ -335,7 +339,7 @@ def _xyt(case):
     for cname, obj in (("SO2[M]", L.SO2([refs.rot2(a) for a in ths], check=False)),
                        ("SE2[M]", L.SE2([refs.rt(refs.rot2(a), [x, y]) for a in ths], check=False))):
         ok1, t_rad = c.lib(cname + ".theta", obj.theta)
-        ok2, t_deg = c.lib(cname + ".theta/deg", obj.theta, "deg")
+        ok2, t_deg = c.lib(cname + ".theta/deg", obj.theta, fresh_str("deg"))
         if ok1 and c.true(cname + ".theta/len", len(t_rad) == 3, "theta() of three values returned %r" % (t_rad,)):
             for a, got in zip(ths, t_rad):
                 c.eq(cname + ".theta/rebuild", refs.rot2(float(got)), refs.rot2(a), 1e-6)
@@ -350,7 +354,7 @@ def _xyt(case):
 
 
 def classify(case):
-    if case.get("kind") in ("hist", "aug", "variant"):
+    if case.get("kind") in ("hist", "aug", "variant", "own"):
         return probes.classify(case)
     k = case["kind"]
     lab = {"kind:" + k: True, "deg": case["unit"] == "deg"}
